@@ -23,6 +23,7 @@ func checkC16(c *Ctx, r *Report) {
 	checkReversal(c, r)
 	checkPairedSlices(c, r)
 	checkWholeOps(c, r)
+	checkWholeOps2(c, r)
 	r.Note("decided: the single-bit operations, per-word mask transitions, argument guards, word-geometry formulae, unconditional bit reversal in the 180-degree rotations and paired-slice loop bounds. Not decided: the model equivalence the property states over operation histories (rotation realignment shifts, GetNextSet/Unset scanning, growth) — run-time by nature")
 }
 
@@ -974,5 +975,473 @@ func checkWholeOps(c *Ctx, r *Report) {
 		reportFold(r, c, "S-WHOLE", key, fd.Pos(), bad)
 	} else {
 		r.AnchorLost("S-WHOLE", "gozxing.BitMatrix.Rotate180/whole", "method not found")
+	}
+}
+
+// ---- S-WHOLE2: more whole operations on a word store with mutable geometry ----
+
+type bitStore struct {
+	words                        map[int64]uint32
+	nwords                       int64
+	size, width, height, rowSize int64
+}
+
+func (bs *bitStore) hooks(p *packages.Package) *rpf {
+	h := &rpf{unroll: 8192}
+	h.selHook = func(x *rpf, sel *ast.SelectorExpr) (*Val, bool) {
+		switch sel.Sel.Name {
+		case "size":
+			return vint(bs.size), true
+		case "width":
+			return vint(bs.width), true
+		case "height":
+			return vint(bs.height), true
+		case "rowSize":
+			return vint(bs.rowSize), true
+		case "bits":
+			out := &Val{K: VList}
+			for i := int64(0); i < bs.nwords; i++ {
+				out.L = append(out.L, &Val{K: VInt, I: int64(bs.words[i]), T: types.Typ[types.Uint32]})
+			}
+			return out, true
+		}
+		return nil, false
+	}
+	h.idxHook = func(x *rpf, ix *ast.IndexExpr) (*Val, bool) {
+		if sel, ok := ix.X.(*ast.SelectorExpr); ok && sel.Sel.Name == "bits" {
+			i := x.expr(ix.Index)
+			if !i.isInt() || i.I < 0 || i.I >= bs.nwords {
+				rpfFail("word index %v outside the %d-word store", i, bs.nwords)
+			}
+			return &Val{K: VInt, I: int64(bs.words[i.I]), T: types.Typ[types.Uint32]}, true
+		}
+		return nil, false
+	}
+	h.stHook = func(x *rpf, lhs ast.Expr, v *Val) bool {
+		switch l := lhs.(type) {
+		case *ast.IndexExpr:
+			if sel, ok := l.X.(*ast.SelectorExpr); ok && sel.Sel.Name == "bits" {
+				i := x.expr(l.Index)
+				if !i.isInt() || i.I < 0 || i.I >= bs.nwords {
+					rpfFail("word index %v outside the %d-word store", i, bs.nwords)
+				}
+				bs.words[i.I] = uint32(v.I)
+				return true
+			}
+		case *ast.SelectorExpr:
+			switch l.Sel.Name {
+			case "size":
+				bs.size = v.I
+				return true
+			case "width":
+				bs.width = v.I
+				return true
+			case "height":
+				bs.height = v.I
+				return true
+			case "rowSize":
+				bs.rowSize = v.I
+				return true
+			case "bits":
+				if v.K == VList {
+					bs.words = map[int64]uint32{}
+					bs.nwords = int64(len(v.L))
+					for i, e := range v.L {
+						bs.words[int64(i)] = uint32(e.I)
+					}
+					return true
+				}
+			}
+		}
+		return false
+	}
+	h.callHook = func(x *rpf, call *ast.CallExpr, callee types.Object) (*Val, bool) {
+		if f, ok := callee.(*types.Func); ok {
+			if f.Pkg() != nil && f.Pkg().Path() == "math/bits" {
+				v := x.expr(call.Args[0])
+				if !v.isInt() {
+					rpfFail("math/bits call on a non-integer")
+				}
+				switch f.Name() {
+				case "Reverse32":
+					return &Val{K: VInt, I: int64(bits.Reverse32(uint32(v.I))), T: types.Typ[types.Uint32]}, true
+				case "TrailingZeros32":
+					return vint(int64(bits.TrailingZeros32(uint32(v.I)))), true
+				case "LeadingZeros32":
+					return vint(int64(bits.LeadingZeros32(uint32(v.I)))), true
+				}
+			}
+			if f.Pkg() != nil && f.Pkg().Path() == "golang.org/x/xerrors" {
+				return vstr("error"), true
+			}
+			switch f.Name() {
+			case "ensureCapacity":
+				// growth itself is decided by S-ROWSIZE; here the store is made large enough
+				n := x.expr(call.Args[0])
+				if need := (n.I + 31) / 32; need > bs.nwords {
+					bs.nwords = need
+				}
+				return &Val{K: VNil}, true
+			}
+			if isMethodNamed(callee, "", "BitArray", "Get") {
+				i := x.expr(call.Args[0])
+				if !i.isInt() || i.I < 0 || i.I >= bs.nwords*32 {
+					rpfFail("Get(%v) outside the store", i)
+				}
+				return vbool(bs.words[i.I/32]>>(uint(i.I)%32)&1 == 1), true
+			}
+		}
+		if b, ok := callee.(*types.Builtin); ok && b.Name() == "len" {
+			if sel, ok := call.Args[0].(*ast.SelectorExpr); ok && sel.Sel.Name == "bits" {
+				return vint(bs.nwords), true
+			}
+		}
+		return nil, false
+	}
+	return h
+}
+
+func (bs *bitStore) bit(i int64) bool { return bs.words[i/32]>>(uint(i)%32)&1 == 1 }
+
+func newBitStoreArray(size int64, pat func(int64) bool) *bitStore {
+	bs := &bitStore{words: map[int64]uint32{}, nwords: (size + 31) / 32, size: size}
+	for i := int64(0); i < size; i++ {
+		if pat(i) {
+			bs.words[i/32] |= 1 << (uint(i) % 32)
+		}
+	}
+	return bs
+}
+
+func newBitStoreMatrix(w, h int64, pat func(x, y int64) bool) *bitStore {
+	rs := (w + 31) / 32
+	bs := &bitStore{words: map[int64]uint32{}, nwords: rs * h, width: w, height: h, rowSize: rs}
+	for y := int64(0); y < h; y++ {
+		for x := int64(0); x < w; x++ {
+			if pat(x, y) {
+				bs.words[y*rs+x/32] |= 1 << (uint(x) % 32)
+			}
+		}
+	}
+	return bs
+}
+
+func checkWholeOps2(c *Ctx, r *Report) {
+	r.Rule("S-WHOLE2", "further container operations folded as whole functions on a pre-filled word store and compared with the bit model: GetNextSet / GetNextUnset (every position of arrays around the word boundaries), IsRange (every 0 <= start <= end <= 70, both values), AppendBit / AppendBits (every width 0..32 at array sizes around the word boundaries; most significant bit first), ToBytes, BitMatrix.Rotate90 (index map and new geometry), FlipAll, GetTopLeftOnBit / GetBottomRightOnBit / GetEnclosingRectangle (empty, single-bit and mixed matrices)", 9)
+	pats := []func(int64) bool{
+		func(i int64) bool { return (i*7+i/3)%5 < 2 },
+		func(i int64) bool { return false },
+		func(i int64) bool { return true },
+		func(i int64) bool { return i%37 == 36 },
+	}
+	foldOn := func(name string, bs *bitStore, args []*Val) ([]*Val, string) {
+		fd, p := c.funcDeclOf("", name)
+		if fd == nil {
+			return nil, "!"
+		}
+		res, err := c.rpfCall(fd, p, args, bs.hooks(p))
+		if err != nil {
+			return nil, "?" + err.Error()
+		}
+		return res, ""
+	}
+	report := func(name, bad string) {
+		key := "gozxing." + name + "/whole"
+		fd, _ := c.funcDeclOf("", name)
+		if fd == nil || bad == "!" {
+			r.AnchorLost("S-WHOLE2", key, "method not found")
+			return
+		}
+		r.Analysed(key)
+		reportFold(r, c, "S-WHOLE2", key, fd.Pos(), bad)
+	}
+	// ---- GetNextSet / GetNextUnset
+	for _, t := range []struct {
+		name string
+		want bool
+	}{{"BitArray.GetNextSet", true}, {"BitArray.GetNextUnset", false}} {
+		bad := ""
+		for _, size := range []int64{1, 5, 31, 32, 33, 64, 70} {
+			for pi, pat := range pats {
+				for from := int64(0); from <= size+1 && bad == ""; from++ {
+					bs := newBitStoreArray(size, pat)
+					res, e := foldOn(t.name, bs, []*Val{vint(from)})
+					if e != "" {
+						bad = e
+						break
+					}
+					want := size
+					for i := from; i < size; i++ {
+						if pat(i) == t.want {
+							want = i
+							break
+						}
+					}
+					// bits at and beyond `size` inside the last word are zero in this store
+					if len(res) != 1 || res[0].K != VInt || res[0].I != want {
+						bad = fmt.Sprintf("array of %d bits (pattern %d), from %d: returns %s, the first %s bit at or after it is %d (size when none)", size, pi, from, valString(res[0]), map[bool]string{true: "set", false: "unset"}[t.want], want)
+					}
+				}
+			}
+		}
+		report(t.name, bad)
+	}
+	// ---- IsRange
+	{
+		bad := ""
+		const SIZE = 70
+		for _, pat := range pats[:3] {
+			for start := int64(0); start <= SIZE && bad == ""; start++ {
+				for end := start; end <= SIZE && bad == ""; end++ {
+					for _, value := range []bool{false, true} {
+						// make the range itself uniform half of the time so that `true` answers are exercised
+						p2 := func(i int64) bool {
+							if i >= start && i < end && (start+end)%2 == 0 {
+								return value
+							}
+							return pat(i)
+						}
+						bs := newBitStoreArray(SIZE, p2)
+						res, e := foldOn("BitArray.IsRange", bs, []*Val{vint(start), vint(end), vbool(value)})
+						if e != "" {
+							bad = e
+							break
+						}
+						want := true
+						for i := start; i < end; i++ {
+							if p2(i) != value {
+								want = false
+							}
+						}
+						if len(res) != 2 || res[1].K != VNil || res[0].K != VBool || res[0].B != want {
+							bad = fmt.Sprintf("IsRange(%d, %d, %v): returns %s, the model says %v", start, end, value, valString(res[0]), want)
+							break
+						}
+					}
+				}
+			}
+		}
+		report("BitArray.IsRange", bad)
+	}
+	// ---- AppendBits / AppendBit
+	{
+		bad := ""
+		for _, size := range []int64{0, 1, 5, 30, 31, 32, 33, 60, 64} {
+			for n := int64(0); n <= 32 && bad == ""; n++ {
+				for _, value := range []int64{0, 1, 0x5A5A5A5A, 0xFFFFFFFF, 0x80000001, 0x12345678} {
+					bs := newBitStoreArray(size, pats[0])
+					res, e := foldOn("BitArray.AppendBits", bs, []*Val{vint(value), vint(n)})
+					if e != "" {
+						bad = e
+						break
+					}
+					if len(res) != 1 || res[0].K != VNil {
+						bad = fmt.Sprintf("AppendBits(%#x, %d) on %d bits returns an error", value, n, size)
+						break
+					}
+					if bs.size != size+n {
+						bad = fmt.Sprintf("AppendBits(%#x, %d) on %d bits leaves size %d", value, n, size, bs.size)
+						break
+					}
+					for i := int64(0); i < size+n && bad == ""; i++ {
+						want := pats[0](i)
+						if i >= size {
+							want = value>>uint(n-1-(i-size))&1 == 1
+						}
+						if bs.bit(i) != want {
+							bad = fmt.Sprintf("AppendBits(%#x, %d) on %d bits: bit %d is %v, expected %v (most significant bit first)", value, n, size, i, bs.bit(i), want)
+						}
+					}
+				}
+			}
+		}
+		report("BitArray.AppendBits", bad)
+		bad = ""
+		for _, size := range []int64{0, 1, 31, 32, 33, 63, 64} {
+			for _, bit := range []bool{false, true} {
+				bs := newBitStoreArray(size, pats[0])
+				_, e := foldOn("BitArray.AppendBit", bs, []*Val{vbool(bit)})
+				if e != "" {
+					bad = e
+					break
+				}
+				if bs.size != size+1 || bs.bit(size) != bit {
+					bad = fmt.Sprintf("AppendBit(%v) on %d bits: size %d, new bit %v", bit, size, bs.size, bs.bit(size))
+				}
+				for i := int64(0); i < size; i++ {
+					if bs.bit(i) != pats[0](i) {
+						bad = fmt.Sprintf("AppendBit(%v) on %d bits disturbs bit %d", bit, size, i)
+					}
+				}
+			}
+		}
+		report("BitArray.AppendBit", bad)
+	}
+	// ---- ToBytes
+	{
+		bad := ""
+		for _, off := range []int64{0, 3, 8, 29, 32} {
+			for _, nb := range []int64{0, 1, 2, 4} {
+				bs := newBitStoreArray(96, pats[0])
+				arr := &Val{K: VList, Local: true}
+				for i := 0; i < 6; i++ {
+					arr.L = append(arr.L, vint(0xEE))
+				}
+				_, e := foldOn("BitArray.ToBytes", bs, []*Val{vint(off), arr, vint(1), vint(nb)})
+				if e != "" {
+					bad = e
+					break
+				}
+				got, _ := listInts(arr)
+				for k := int64(0); k < 6 && bad == ""; k++ {
+					want := int64(0xEE)
+					if k >= 1 && k < 1+nb {
+						want = 0
+						for j := int64(0); j < 8; j++ {
+							if pats[0](off + (k-1)*8 + j) {
+								want |= 1 << uint(7-j)
+							}
+						}
+					}
+					if got[k] != want {
+						bad = fmt.Sprintf("ToBytes(%d, array, 1, %d): array[%d] = %#x, expected %#x (8 bits from bit %d, first bit most significant)", off, nb, k, got[k], want, off+(k-1)*8)
+					}
+				}
+			}
+		}
+		report("BitArray.ToBytes", bad)
+	}
+	// ---- Rotate90, FlipAll, corners
+	mpat := func(x, y int64) bool { return ((y*131+x)*7+(y*131+x)/3)%5 < 2 }
+	{
+		bad := ""
+		for _, w := range []int64{1, 5, 31, 32, 33, 40, 64, 65} {
+			for _, h := range []int64{1, 2, 3, 33} {
+				if bad != "" {
+					continue
+				}
+				bs := newBitStoreMatrix(w, h, mpat)
+				_, e := foldOn("BitMatrix.Rotate90", bs, nil)
+				if e != "" {
+					bad = e
+					continue
+				}
+				if bs.width != h || bs.height != w || bs.rowSize != (h+31)/32 || bs.nwords != bs.rowSize*w {
+					bad = fmt.Sprintf("Rotate90 of %dx%d leaves %dx%d with row size %d and %d words", w, h, bs.width, bs.height, bs.rowSize, bs.nwords)
+					continue
+				}
+				for y := int64(0); y < bs.height && bad == ""; y++ {
+					for x := int64(0); x < bs.rowSize*32; x++ {
+						got := bs.words[y*bs.rowSize+x/32]>>(uint(x)%32)&1 == 1
+						want := x < bs.width && mpat(w-1-y, x)
+						if got != want {
+							bad = fmt.Sprintf("Rotate90 of %dx%d: new module (%d,%d) is %v, expected the old module (%d,%d) = %v (counter-clockwise quarter turn)", w, h, x, y, got, w-1-y, x, want)
+							break
+						}
+					}
+				}
+			}
+		}
+		report("BitMatrix.Rotate90", bad)
+	}
+	{
+		bad := ""
+		for _, w := range []int64{5, 32, 40} {
+			bs := newBitStoreMatrix(w, 2, mpat)
+			before := map[int64]uint32{}
+			for k, v := range bs.words {
+				before[k] = v
+			}
+			_, e := foldOn("BitMatrix.FlipAll", bs, nil)
+			if e != "" {
+				bad = e
+				break
+			}
+			for i := int64(0); i < bs.nwords; i++ {
+				if bs.words[i] != ^before[i] {
+					bad = fmt.Sprintf("FlipAll of a %dx2 matrix: word %d is %#x, expected the complement %#x", w, i, bs.words[i], ^before[i])
+				}
+			}
+		}
+		report("BitMatrix.FlipAll", bad)
+	}
+	for _, name := range []string{"BitMatrix.GetTopLeftOnBit", "BitMatrix.GetBottomRightOnBit", "BitMatrix.GetEnclosingRectangle"} {
+		bad := ""
+		type mcase struct {
+			w, h int64
+			set  [][2]int64
+		}
+		cases := []mcase{
+			{5, 3, nil}, {40, 2, nil},
+			{5, 3, [][2]int64{{0, 0}}}, {5, 3, [][2]int64{{4, 2}}}, {40, 3, [][2]int64{{33, 1}}}, {64, 2, [][2]int64{{31, 0}, {32, 1}}},
+			{70, 3, [][2]int64{{69, 0}, {0, 2}}}, {70, 3, [][2]int64{{10, 1}, {40, 1}, {65, 1}}}, {33, 4, [][2]int64{{32, 3}, {0, 1}, {5, 2}}},
+			{70, 3, [][2]int64{{33, 0}, {50, 1}}}, {70, 3, [][2]int64{{50, 0}, {33, 1}}}, {70, 3, [][2]int64{{50, 0}, {33, 1}, {60, 2}, {34, 2}}},
+		}
+		for _, cs := range cases {
+			if bad != "" {
+				break
+			}
+			setm := map[[2]int64]bool{}
+			for _, s := range cs.set {
+				setm[s] = true
+			}
+			bs := newBitStoreMatrix(cs.w, cs.h, func(x, y int64) bool { return setm[[2]int64{x, y}] })
+			res, e := foldOn(name, bs, nil)
+			if e != "" {
+				bad = e
+				break
+			}
+			var want []int64
+			if len(cs.set) > 0 {
+				switch name {
+				case "BitMatrix.GetTopLeftOnBit":
+					best := cs.set[0]
+					for _, s := range cs.set {
+						if s[1] < best[1] || (s[1] == best[1] && s[0] < best[0]) {
+							best = s
+						}
+					}
+					want = []int64{best[0], best[1]}
+				case "BitMatrix.GetBottomRightOnBit":
+					best := cs.set[0]
+					for _, s := range cs.set {
+						if s[1] > best[1] || (s[1] == best[1] && s[0] > best[0]) {
+							best = s
+						}
+					}
+					want = []int64{best[0], best[1]}
+				default:
+					l, tp, rg, bt := cs.w, cs.h, int64(-1), int64(-1)
+					for _, s := range cs.set {
+						if s[0] < l {
+							l = s[0]
+						}
+						if s[0] > rg {
+							rg = s[0]
+						}
+						if s[1] < tp {
+							tp = s[1]
+						}
+						if s[1] > bt {
+							bt = s[1]
+						}
+					}
+					want = []int64{l, tp, rg - l + 1, bt - tp + 1}
+				}
+			}
+			var got []int64
+			if len(res) == 1 && res[0].K == VList {
+				got, _ = listInts(res[0])
+			}
+			if (len(res) != 1) || (want == nil) != (res[0].K == VNil) || (want != nil && fmt.Sprint(got) != fmt.Sprint(want)) {
+				bad = fmt.Sprintf("%dx%d matrix with set modules %v: returns %s, the model gives %v", cs.w, cs.h, cs.set, func() string {
+					if len(res) == 1 && res[0].K == VNil {
+						return "nil"
+					}
+					return fmt.Sprint(got)
+				}(), want)
+			}
+		}
+		report(name, bad)
 	}
 }
